@@ -440,6 +440,76 @@ func checkSynchronizers(r *Run, p *Prog) {
 			r.Ob("C07.R2.sync", pk+": per-node acknowledgements are merged with the connective the engine uses across channels", p.Position(syncF.Pos()), dist == engine && (dist == "or" || dist == "and"),
 				fmt.Sprintf("distribution merges with %q, cesium.streamIterator with %q: with different connectives the result of Next/Prev/Seek*/Valid depends on where the channels live", dist, engine))
 		}
+		// (b2) a cycle is reported complete exactly when one response per node has arrived, and
+		// completing it restarts the count
+		counter := p.FieldOf(pk, "synchronizer", "cycle.counter")
+		nodeCount := p.FieldOf(pk, "synchronizer", "nodeCount")
+		isCompleteExpr := func(e ast.Expr) bool {
+			be, ok := ast.Unparen(e).(*ast.BinaryExpr)
+			if !ok || be.Op != token.EQL || counter == nil || nodeCount == nil {
+				return false
+			}
+			fx, okx := ast.Unparen(be.X).(*ast.SelectorExpr)
+			fy, oky := ast.Unparen(be.Y).(*ast.SelectorExpr)
+			if !okx || !oky {
+				return false
+			}
+			a, b := fieldVar(syncF, fx), fieldVar(syncF, fy)
+			return (a == counter && b == nodeCount) || (a == nodeCount && b == counter)
+		}
+		var flagObj types.Object
+		okFlag, nFlag := true, 0
+		inspectNoLit(syncF.Body, func(n ast.Node) bool {
+			ret, ok := n.(*ast.ReturnStmt)
+			if !ok || len(ret.Results) != 3 {
+				return true
+			}
+			second := ast.Unparen(ret.Results[1])
+			if id, isID := second.(*ast.Ident); isID && (id.Name == "false" || id.Name == "true") {
+				return true
+			}
+			nFlag++
+			if isCompleteExpr(second) {
+				return true
+			}
+			o := objOf(syncF, second)
+			if o == nil {
+				okFlag = false
+				return true
+			}
+			if rhs, _, d := varDefinedBy(syncF, o); d && isCompleteExpr(rhs) {
+				flagObj = o
+				return true
+			}
+			okFlag = false
+			return true
+		})
+		r.Ob("C07.R2.sync", pk+": the synchronizer reports a cycle complete exactly when counter == nodeCount", p.Position(syncF.Pos()), okFlag && nFlag > 0, "the completion flag must be the comparison of the response count with the number of leaseholders")
+		if flagObj != nil && counter != nil {
+			c := p.CFG(syncF)
+			def := c.NodesWhere(func(n ast.Node) bool {
+				as, ok := n.(*ast.AssignStmt)
+				return ok && len(as.Lhs) == 1 && objOf(syncF, as.Lhs[0]) == flagObj
+			})
+			notComplete := c.EdgesEstablishing(func(atom ast.Expr, val bool) bool { return objOf(syncF, atom) == flagObj && !val })
+			isReset := func(n ast.Node) bool {
+				as, ok := n.(*ast.AssignStmt)
+				if !ok || !isStoreTo(syncF, n, counter) || len(as.Rhs) != 1 {
+					return false
+				}
+				v, isConst := constInt(syncF, as.Rhs[0])
+				return isConst && v == 0
+			}
+			q, vis := c.ReachAvoiding(def, notComplete, isReset)
+			var path []string
+			for _, ex := range c.Exits() {
+				if vis[ex.P] {
+					path = q.PathTo(ex.P)
+				}
+			}
+			r.ObPath("C07.R2.sync", pk+": completing a cycle restarts the response count", p.Position(syncF.Pos()), len(def) == 1 && len(notComplete) > 0 && path == nil,
+				"a completed cycle that leaves the count where it is makes every later command wait for responses that were already counted", path)
+		}
 		// (c) sized by unique leaseholders
 		okCount := false
 		for _, call := range CallsIn(ns, calleeIs(newS)) {
